@@ -118,4 +118,5 @@ class C07(Check):
 
 
 def main(tier, seed, replay=None):
-    return C07().main(tier, seed, replay)
+    from harness import densex
+    return densex.extend(C07, densex.D07())().main(tier, seed, replay)
